@@ -326,6 +326,21 @@ func c01Gen(r *rand.Rand, tier string) []spec.Case {
 			}
 		}
 	}
+	// 2a'. every certificate-field value against a client whose static TLSConfig already has trust roots
+	// of its own (own PRNG stream: the cases that follow are drawn as before)
+	{
+		r2 := rand.New(rand.NewSource(int64(7919 + len(out))))
+		for _, v := range c01CertPool() {
+			for k := 0; k < 2; k++ {
+				p := c01RandCfg(r2)
+				p.TLS = "static-roots"
+				f := c01ValidFor(r2, &p)
+				f.cert = v
+				p.Line, p.End = c01Wrapper(f.line(), "lf")
+				add("one-field:cert", p)
+			}
+		}
+	}
 	// 2b. the last three fields interact with each other and with the configuration (protocol x allowed
 	// list x multiplexing x TLS mode): their full cross product for every configuration, all else valid
 	for _, a := range c01AllowedL {
